@@ -93,6 +93,12 @@ SCRIPT_DOCS = [
     "<head><script>s</script><title>t</title></head><body>x", "<script>a</script><script>b</script><p>x<b>y",
     "<ul><li><script>s</script><li>x</ul>y", "<p><script>s</script><p>x", "<nobr>a<script>s</script><nobr>b<nobr>c",
     "<html><body><div id=1><span><script>s</script></span>x</div><script>t</script>y",
+    # the form element pointer while a template is open (it is ignored there, but used again after </template>)
+    "<div><form></div><template><script>s</script></template><input>x",
+    "<div><form></div><template><script>s</script><td></template></form><input>y",
+    "<div><form><p></div><template><div><script>s</script></div></template><input><button>z",
+    # the head element pointer and the context of a fragment-less parse after </head>
+    "<head></head><template><script>s</script></template><title>t</title>x",
 ]
 XML_SCRIPT_DOCS = [
     "<r><a/><script/><b/>t</r>", "<r><a><script>s</script><c/></a><b/></r>", "<r><script>s</script></r><!--c-->",
